@@ -238,11 +238,16 @@ def delivery_oracle(result, chan_pair, which):
                                 f"with a queue of length 0 were not waiting", i))
             for sid, e in out["done"]:
                 yielded(sid, e)
-            for sb in subs.values():
-                # a handed-over event that fails the filter is consumed silently and the consumer parks again
+            for sid_, sb in subs.items():
+                # a handed-over event that fails the filter is consumed silently and the consumer parks again; one that
+                # passes it has been yielded by now: a consumer parked in __anext__ takes the event whatever the
+                # length of its queue
                 for e in sb.pop("handed", []):
                     if sb["active"] and not flt_pass(sb["f"], e):
                         sb["parked"] = True
+                    elif flt_pass(sb["f"], e) and e["id"] not in sb["got"]:
+                        bad.append(("C10:lost-event", f"step {i}: subscriber {sid_} (queue of length 0) was waiting in "
+                                    f"__anext__ when event {e['id']} was dispatched and did not receive it", i))
         if op["op"] == "Recv":
             if out["k"] == "Yield":
                 yielded(op["sid"], out["e"])
